@@ -9,7 +9,7 @@ check_trace() replays the VM's observed completion lines against the model
 import itertools
 
 KINDS = ['sync', 'buf1', 'buf2']
-CAP = {'buf1': 1, 'buf2': 2}
+CAP = {'buf1': 1, 'buf2': 2, 'buf3': 3}
 
 
 def scripts_upto(nch, maxlen):
@@ -67,7 +67,7 @@ def body(f, script, wrap=None):
 def program(kinds, fibers, launch_late=False, wrap=None):
     L = []
     for c, k in enumerate(kinds):
-        L.append("let c%d = %s;" % (c, {'sync': 'chan()', 'buf1': 'chan(1)', 'buf2': 'chan(2)'}[k]))
+        L.append("let c%d = %s;" % (c, {'sync': 'chan()', 'buf1': 'chan(1)', 'buf2': 'chan(2)', 'buf3': 'chan(3)'}[k]))
     params = ', '.join('c%d' % c for c in range(len(kinds)))
     for f, s in enumerate(fibers):
         if f == 0:
